@@ -162,6 +162,12 @@ def crash_summary(err, rc):
 def run_driver(exe, lines, args=(), jobs=NCPU, timeout=900):
     if not lines:
         return []
+    rec = os.environ.get("VERIF_RECORD")
+    if rec and os.path.basename(exe) == "drv" and not args:
+        # tools/coverage.py: remember every scenario given to the implementation
+        with Lock("record"):
+            with open(rec, "a") as f:
+                f.write("\n".join(lines) + "\n")
     jobs = max(1, min(jobs, (len(lines) + 7) // 8))
     size = (len(lines) + jobs - 1) // jobs
     chunks = [lines[i:i + size] for i in range(0, len(lines), size)]
